@@ -253,4 +253,36 @@ theorem lrBasisSeq_prod {G : Type} [Group G] : ∀ (Bs : List G) (W : G), (lrBas
   | [], W => by simp [lrBasisSeq]
   | B :: Bs, W => by simp [lrBasisSeq, lrBasisSeq_prod Bs B]
 
+/-- closed form of the `i`-th leaf time: the base-5 digits of `i` (most significant = outermost level) select, level
+by level, the middle sub-step (digit 2: factor `1 − 4 r_j`) or a side sub-step (factor `r_j`) -/
+def leafTime (r : Nat → Rat) : Nat → Rat → Nat → Rat
+  | 0, t, _ => t
+  | 1, t, _ => t
+  | k + 2, t, i =>
+    leafTime r (k + 1) (if i / leafCount (k + 1) = 2 then t - 4 * (t * r (k + 2)) else t * r (k + 2))
+      (i % leafCount (k + 1))
+
+theorem block_index (L c i : Nat) (h1 : c * L ≤ i) (h2 : i < (c + 1) * L) : i / L = c ∧ i % L = i - c * L := by
+  have hL : 0 < L := by
+    rcases Nat.eq_zero_or_pos L with h | h
+    · subst h; simp at h2
+    · exact h
+  rw [Nat.add_mul, Nat.one_mul] at h2
+  have hm : L * c = c * L := Nat.mul_comm _ _
+  exact (Nat.div_mod_unique hL (a := i) (d := c) (c := i - c * L)).mpr ⟨by rw [hm]; omega, by omega⟩
+
+theorem leafCount_pos (k : Nat) : 0 < leafCount k := by
+  have := leafCount_odd k; omega
+
+
+theorem alternates_getElem (perm : List Nat → List Nat) :
+    ∀ (l : List (List Nat)) (q : List Nat) (i : Nat), Alternates perm q l → i < l.length → l[i]? = some (perm^[i] q)
+  | [], _, i, _, hi => by simp at hi
+  | x :: l, q, 0, h, _ => by simp [Alternates] at h; simp [h.1]
+  | x :: l, q, i + 1, h, hi => by
+    simp only [Alternates] at h
+    rw [List.getElem?_cons_succ, Function.iterate_succ_apply]
+    exact alternates_getElem perm l (perm q) i h.2 (by simpa using hi)
+
+
 end OFV.C15
